@@ -346,6 +346,21 @@ func checkC09(c *Ctx) (int, error) {
 		cases = append(cases, cs)
 		c.ev.nontrivial(histString(cs.Ops) + "|" + histString(cs.Shadow) + "|" + cs.Tag)
 	}
+	// very large single Writes against the same data in pieces
+	for i, set := range accelSettings {
+		total := pick(rng, []int{300000, 524288 + 5000, 700000})
+		cs := &WCase{ID: fmt.Sprintf("C09-big-%d", i), Set: set, Tag: settingTag(set), Data: randData(rng, total), Cmp: "C09"}
+		first := pick(rng, []int{262144, 262145, 300000, total - 5000})
+		cs.Ops = []Op{{Op: "W", N: first}, {Op: "W", N: total - first}, {Op: "C"}}
+		left := total
+		for left > 0 {
+			k := minInt(left, 1+rng.Intn(100000))
+			cs.Shadow = append(cs.Shadow, Op{Op: "W", N: k})
+			left -= k
+		}
+		cs.Shadow = append(cs.Shadow, Op{Op: "C"})
+		cases = append(cases, cs)
+	}
 	// one-byte writes against one big write
 	for i, set := range accelSettings {
 		total := capOf(set) + 300 + rng.Intn(300)
